@@ -42,8 +42,8 @@ def toJson : Value → JVal
   | .date ns => .str (Time.rfc3339 ns)
   | .dur ns => .str (Time.isoDuration ns)
   | .arr vs => .arr (toJsonList vs)
-  -- HASH ORDER: the real code iterates an `im::HashMap` here (`for (k, v) in map`); the model
-  -- lists nested members key-sorted (C13's business; C18 compares nested objects as maps)
+  -- nested members in key order: `map.iter().sorted_by(key)` since the repair 2099327 (before it
+  -- the code iterated the `im::HashMap` in hash order: class C18/nested-key-order-nondeterministic)
   | .obj kvs => .obj (toJsonKVs kvs)
 def toJsonList : List Value → List JVal
   | [] => []
